@@ -86,6 +86,43 @@ Proof.
     destruct (group_remove now (o_pol o) g) as [rmg ke]. rewrite Hp in E. cbn [negb andb] in E. apply (IH _ E).
 Qed.
 
+(* ---- execution layer: failed removals and the prune hand-off ---- *)
+Lemma execute_nofail o r : x_deleted (execute o [] r) = deleted o r.
+Proof.
+  unfold execute, deleted. destruct r; try reflexivity. destruct (o_dry o); [reflexivity|].
+  assert (filter (fun i => memN i []) removed = []) as ->.
+  { induction removed as [|x l IH]; [reflexivity | exact IH]. }
+  reflexivity.
+Qed.
+
+(* prune is handed the removal set only when every reported snapshot file was really deleted (or
+   nothing is deleted at all in a dry run); a failed removal ends the command before prune *)
+Theorem prune_only_after_complete_removal o fail r :
+  x_prune (execute o fail r) = true ->
+  exists rm, r = Ok rm /\ rm <> [] /\ x_kind (execute o fail r) = ROk /\
+             (o_dry o = true \/ (x_deleted (execute o fail r) = rm /\ forall i, In i rm -> memN i fail = false)).
+Proof.
+  unfold execute. destruct r; cbn; try discriminate.
+  destruct (o_dry o) eqn:Hd; cbn [x_prune x_kind x_deleted].
+  - intros H. apply andb_true_iff in H as [_ H]. exists removed. split; [reflexivity|].
+    split; [destruct removed; [discriminate | discriminate]|]. split; [reflexivity | left; reflexivity].
+  - destruct (is_nil (filter (fun i => memN i fail) removed)) eqn:Hf; cbn [x_prune x_kind x_deleted]; [|discriminate].
+    intros H. apply andb_true_iff in H as [_ H]. exists removed. split; [reflexivity|].
+    split; [destruct removed; [discriminate | discriminate]|]. split; [reflexivity|]. right. split; [reflexivity|].
+    intros i Hi. destruct (memN i fail) eqn:Em; [|reflexivity].
+    assert (In i (filter (fun i => memN i fail) removed)) as Hin by (apply filter_In; split; assumption).
+    destruct (filter (fun i => memN i fail) removed); [destruct Hin | discriminate].
+Qed.
+
+Theorem failed_removal_reported o fail rm :
+  o_dry o = false -> (exists i, In i rm /\ memN i fail = true) ->
+  execute o fail (Ok rm) = mkX (diffN rm fail) RFailed false.
+Proof.
+  intros Hd [i [Hi Hf]]. unfold execute. rewrite Hd.
+  assert (In i (filter (fun i => memN i fail) rm)) as Hin by (apply filter_In; split; assumption).
+  destruct (filter (fun i => memN i fail) rm); [destruct Hin | reflexivity].
+Qed.
+
 (* non-vacuity *)
 From Coq Require Import String. Open Scope string_scope.
 Definition ex_pol (last : Z) (tags : list (list bytes)) : C22m.policy :=
@@ -97,11 +134,14 @@ Definition ex_sel : list snap :=
 Example c23_nonvacuous :
   let now := C22m.mkTm 99999 0 0 in
   let g := C24m.mkG false true true in
-  run_forget now (mkO false g (ex_pol 1 []) false true false) ex_sel = Ok [0%N]
-  /\ run_forget now (mkO false g (ex_pol 0 [[str "a"]]) false true false) ex_sel = EGuard
-  /\ run_forget now (mkO false (C24m.mkG false false false) (ex_pol 0 [[str "a"]]) false true false) ex_sel = Ok [2%N; 0%N]
-  /\ run_forget now (mkO false g (ex_pol 0 []) false true false) ex_sel = ENoPolicy
-  /\ run_forget now (mkO false g (ex_pol 0 []) true true false) ex_sel = EUnsafeNeedsFilter
-  /\ run_forget now (mkO false g (ex_pol 0 []) true false false) ex_sel = Ok [1%N; 0%N; 2%N]
-  /\ run_forget now (mkO true g (ex_pol 0 []) false true false) ex_sel = Ok [0%N; 1%N; 2%N].
+  run_forget now (mkO false g (ex_pol 1 []) false true false false) ex_sel = Ok [0%N]
+  /\ run_forget now (mkO false g (ex_pol 0 [[str "a"]]) false true false false) ex_sel = EGuard
+  /\ run_forget now (mkO false (C24m.mkG false false false) (ex_pol 0 [[str "a"]]) false true false false) ex_sel = Ok [2%N; 0%N]
+  /\ run_forget now (mkO false g (ex_pol 0 []) false true false false) ex_sel = ENoPolicy
+  /\ run_forget now (mkO false g (ex_pol 0 []) true true false false) ex_sel = EUnsafeNeedsFilter
+  /\ run_forget now (mkO false g (ex_pol 0 []) true false false false) ex_sel = Ok [1%N; 0%N; 2%N]
+  /\ run_forget now (mkO true g (ex_pol 0 []) false true false false) ex_sel = Ok [0%N; 1%N; 2%N]
+  /\ execute (mkO false g (ex_pol 1 []) false true false true) [1%N] (Ok [0%N; 1%N]) = mkX [0%N] RFailed false
+  /\ execute (mkO false g (ex_pol 1 []) false true false true) [] (Ok [0%N; 1%N]) = mkX [0%N; 1%N] ROk true
+  /\ execute (mkO false g (ex_pol 1 []) false true true true) [1%N] (Ok [0%N; 1%N]) = mkX [] ROk true.
 Proof. vm_compute. repeat split. Qed.
